@@ -490,6 +490,50 @@ def sugar_corpus():
     ]
 
 
+def roots_corpus():
+    """Function values whose body is rooted at a TailLoop / Case / DataflowBlock (seeded C14-j: type_() answered with
+    the loop's OUTER signature just_inputs+rest -> just_outputs+rest, not the signature of the body)."""
+    b, i5, q, u, T = ["bool"], ["int", 5], ["qubit"], ["unit", 1], ["bool", True]
+    ctrl = lambda tag, ji, jo, vals: ["const", ["sum", tag, ["sum", [ji, jo]], vals]]
+    loop = ["func", "loop", [b, u], [ctrl(1, [b], [b], [T]), ["in", 1]]]                      # the seeded demo's loop
+    loop2 = ["func", "loop", [b, i5, q], [ctrl(0, [b, i5], [q, ["float"]], [T, ["int", 3, 5]]), ["in", 2]]]
+    case = ["func", "case", [b, q], [["in", 1], ["in", 0], ["const", ["int", 3, 4]]]]
+    block = ["func", "block", [b, q], [["const", ["sum", 1, ["sum", [[b], [], [i5]]], []]], ["in", 1], ["in", 0]]]
+    V = lambda v: {"kind": "val", "val": v}
+    return [
+        V(loop), V(loop2), V(["func", "loop", [], [ctrl(1, [], [], [])]]), V(["func", "loop", [b], [ctrl(1, [b], [], [])]]),
+        V(["func", "loop", [q], [ctrl(1, [], [b], [T]), ["in", 0]]]),
+        V(["tuple", [T, loop]]), V(["some", [loop2]]), V(["array", [loop, loop], tv.val_type_desc(loop)]),
+        V(["func", "dfg", [b], [["const", loop], ["in", 0]]]),
+        V(["sum", 1, ["sum", [[], [tv.val_type_desc(loop2)]]], [loop2]]),
+        V(case), V(["func", "case", [], []]), V(block),
+        V(["func", "block", [b], [["const", ["unitsum", 0, 1]], ["in", 0]]]), V(["list", [block], tv.val_type_desc(block)]),
+        # a live function value whose body is replaced by a loop-rooted one, and back
+        {"kind": "seq", "steps": [{"leaf": ["func", "dfg", [b, u], [["in", 0], ["in", 1]]]},
+                                  {"leaf": loop, "lchg": "mut", "host": "keep"},
+                                  {"leaf": case, "lchg": "mut", "host": "keep"}]},
+        {"kind": "seq", "steps": [{"leaf": loop, "ctx": [["tuple", [T], []]]},
+                                  {"leaf": block, "lchg": "mut", "host": "val", "ctx": [["tuple", [T], []]]}]},
+    ]
+
+
+def rand_roots_case(rng):
+    f = tv.rand_func_root(rng, 2)
+    if rng.random() < 0.15:
+        g = tv.rand_func(rng, 2) if rng.random() < 0.5 else tv.rand_func_root(rng, 2)
+        steps = [{"leaf": g}, {"leaf": f, "lchg": "mut"}] if rng.random() < 0.6 else [{"leaf": f}, {"leaf": g, "lchg": "mut"}]
+        ctx = rand_ctx(rng, f) if rng.random() < 0.5 else []
+        for i, st in enumerate(steps):
+            st["ctx"] = ctx
+            if i:
+                st["host"] = rng.choice(["keep", "keep", "val", "op", "new"])
+        return {"kind": "seq", "steps": steps}
+    d = f
+    for layer in rand_ctx(rng, f):
+        d = wrap_desc(layer, d)
+    return {"kind": "val", "val": d}
+
+
 def shrink_seq(case):
     steps = case["steps"]
     S = lambda st: {"kind": "seq", "steps": st}
@@ -535,7 +579,9 @@ class C14(fw.Prop):
             "UnitSum, bool_value/TRUE/FALSE, Tuple, Some/None_, Left/Right, IntVal of every width 0..6, FloatVal, "
             "StringVal, ArrayVal/ListVal/StaticArrayVal, opaque val.Extension constants of arbitrary types incl. "
             "linear ones), helper towers over arbitrary values, Function values over real DFG- and FuncDefn-rooted "
-            "bodies with loaded constants, over DFG roots that declare extension requirements (built with "
+            "bodies with loaded constants, over bodies rooted at the other dataflow parents that have an inner "
+            "signature (the TailLoop builder, Case(ops.Case), DfBase(ops.DataflowBlock): control / branch sum loaded "
+            "as a constant, just_inputs / just_outputs / rest rows of 0-3 generated types), over DFG roots that declare extension requirements (built with "
             "ops.DFG(ins, None, reqs) and read back with Hugr.load_json), bare, nested in helpers / raw sums / "
             "collections and loaded inside other function bodies, collections of functions and of sums; an ill-typed "
             "stream (tag out of range, wrong / missing / extra field, wrong element, element / field type differing "
@@ -597,7 +643,7 @@ class C14(fw.Prop):
             # the declared element / field type forgets (or invents) the requirements of the function it holds
             ["array", [["func", "dfgx", [], [], ["e.one"]]], ["func", [], [], []]],
             ["sum", 0, ["sum", [[["func", [], [], ["e.one"]]]]], [["func", "dfg", [], []]]],
-        ]] + [{"kind": "val", "val": v} for v in sugar_corpus()] + seq_corpus()
+        ]] + [{"kind": "val", "val": v} for v in sugar_corpus()] + seq_corpus() + roots_corpus()
 
     def generate(self, rng, tier, ctx):
         k = 1 if tier == "quick" else 7
@@ -645,6 +691,11 @@ class C14(fw.Prop):
         # C14-h); drawn last, the streams above are unchanged
         for _ in range(170 * k):
             cases.append({"kind": "val", "val": tv.rand_sugar_val(rng, rng.choice([1, 2, 2, 3]))})
+        # function values whose body is rooted at a TailLoop / Case / DataflowBlock (the dataflow parents other than
+        # DFG / FuncDefn that have an inner signature), bare, under 1-2 wrappers, swapped into a live function value
+        # (seeded C14-j); drawn last, the streams above are unchanged
+        for _ in range(130 * k):
+            cases.append(rand_roots_case(rng))
         return cases
 
     # ------------------------------------------------------------------ implementation
@@ -785,6 +836,7 @@ class C14(fw.Prop):
             out.append({"kind": "val", "val": tv.rand_val_reqs(rng, rng.choice([0, 1, 2]))})
         for _ in range(200):
             out.append({"kind": "val", "val": tv.rand_sugar_val(rng, rng.choice([1, 2, 3]))})
+        out += [c for c in (rand_roots_case(rng) for _ in range(100)) if c["kind"] == "val"]
         # the value observed a second time after a change, and changed into
         v = case["val"]
         for w in tv.child_vals(v)[:3] + [["bool", True]]:
